@@ -38,10 +38,12 @@ Theorem c17_single_request : forall (zdec : zoracle) s,
   snd (decompressL zdec s) = [EvInflate (is_wrapped s) s (zip_max_size + 1)].
 Proof. intros zdec s. split; [exact (decompressL_fst zdec s) | exact (decompressL_trace zdec s)]. Qed.
 
-(* errors are the exceeded-size error or whatever zlib itself raised *)
+(* errors: the exceeded-size error, DecodeError for a zlib.error, or another error of the call *)
 Theorem c17_error_class : forall (zdec : zoracle) s err,
   decompress zdec s = Err err ->
-  err = EJose ExceededSizeError \/ zdec (is_wrapped s) s (zip_max_size + 1) = Err err.
+  err = EJose ExceededSizeError \/
+  (zdec (is_wrapped s) s (zip_max_size + 1) = Err EZlib /\ err = EJose DecodeError) \/
+  (zdec (is_wrapped s) s (zip_max_size + 1) = Err err /\ err <> EZlib).
 Proof. exact decompress_error_class. Qed.
 
 (* position: decompress is applied only to the output of a successful enc.decrypt *)
